@@ -800,6 +800,23 @@ impl Connection {
     }
 }
 
+#[cfg(libtw2_verif)]
+impl Connection {
+    /// Verification hook: an independent copy of the protocol state (the
+    /// `builder` scratch buffer carries no state between calls).
+    pub fn verif_clone(&self) -> Connection {
+        Connection {
+            state: self.state.clone(),
+            send: self.send,
+            builder: PacketBuilder::new(),
+        }
+    }
+    /// Verification hook: a rendering of the complete protocol state.
+    pub fn verif_fingerprint(&self) -> String {
+        format!("{:?} send={:?}", self.state, self.send)
+    }
+}
+
 #[cfg(test)]
 mod test {
     use super::Callback;
